@@ -501,7 +501,8 @@ def _tz():
     return st.one_of(
         st.just(datetime.timezone.utc),
         st.integers(-1439, 1439).map(lambda m: datetime.timezone(datetime.timedelta(minutes=m))),
-        st.sampled_from([60, -60, 330, 345, -570, 840, -720, 1439, -1439]).map(
+        # includes pairs exactly 24 h apart (+14:00/-10:00, +13:00/-11:00, +12:00/-12:00, +05:30/-18:30)
+        st.sampled_from([60, -60, 330, 345, -570, 840, -600, 780, -660, 720, -720, -1110, 1439, -1439, 1, -1]).map(
             lambda m: datetime.timezone(datetime.timedelta(minutes=m))),
     )
 
@@ -1063,7 +1064,11 @@ def specs(draw, names: Names | None = None, *, max_depth=3, hashable=False, key=
         return {"k": "optional", "a": [inner], "sp": draw(st.sampled_from(["Optional", "pipe", "Union", "pipe_first"]))}
     if k == "union":
         n = draw(st.integers(2, 4))
-        ms = [draw(sub(hashable=hashable, unions=False)) for _ in range(n)]
+        if draw(st.integers(0, 3)) == 0:
+            # temporal members side by side: their text forms are disjoint, their parsers are shared
+            ms = [S(t) for t in draw(st.permutations(["date", "datetime", "time", "timedelta"]))[:max(2, n - 1)]]
+        else:
+            ms = [draw(sub(hashable=hashable, unions=False)) for _ in range(n)]
         if draw(st.booleans()):
             ms.insert(draw(st.integers(0, len(ms))), dict(NONE))
         return {"k": "union", "a": ms, "sp": draw(st.sampled_from(["Union", "pipe"]))}
